@@ -806,9 +806,10 @@ func kfCoq(ct, iv, salt, mac []byte, alias string) string {
 }
 
 // reference for decrypt: fills the kdf / ctr / sha256 tables the model needs
-func (t *tabs) refDecrypt(ct, iv, salt, mac []byte, pw string, n, p int) {
+func (t *tabs) refDecrypt(ct, iv, salt, mac []byte, pw string, n, p int) []byte {
 	dk := t.kdf([]byte(pw), salt, n, p)
 	t.ctr(dk[:16], iv, 64)
+	return dk
 }
 
 func errCode(err error) string {
@@ -880,7 +881,14 @@ func keystoreCase(c *Ctx, idx int, withModel bool) {
 	obs := []string{X(kj.ct), X(kj.mac)}
 	var items []string
 	for _, o := range ops {
-		t.refDecrypt(o.ct, o.iv, o.salt, o.mac, o.pw, scryptN, scryptP)
+		dkTried := t.refDecrypt(o.ct, o.iv, o.salt, o.mac, o.pw, scryptN, scryptP)
+		if o.want == 0 && bytes.Equal(dkTried, dk) {
+			// scrypt (PBKDF2-HMAC) pads the password with zero bytes: passwords that differ only
+			// in trailing NUL bytes derive the same key; such a password is not a wrong one
+			// (theorem c28_keystore: "... or the same scrypt key")
+			o.want = -1
+			c.Stats.Count("keystore:wrong-password-with-equal-scrypt-key")
+		}
 		got, err := pseudohsm.DecryptKey(kj.with(o.ct, o.iv, o.salt, o.mac), o.pw)
 		d := map[string]interface{}{"case": desc, "op": o.kind, "password_tried": hex.EncodeToString([]byte(o.pw))}
 		if err != nil {
@@ -917,6 +925,11 @@ func keystoreCase(c *Ctx, idx int, withModel bool) {
 	if idx%23 == 0 {
 		c.Stats.Sample(desc)
 	}
+}
+
+// passwords that differ only in trailing NUL bytes are the same HMAC key, hence the same scrypt key
+func sameScryptKey(a, b string) bool {
+	return strings.TrimRight(a, "\x00") == strings.TrimRight(b, "\x00")
 }
 
 // the HSM on a scratch directory (light scrypt: few cases)
@@ -1006,9 +1019,12 @@ func hsmCase(c *Ctx, idx int) error {
 		}
 
 		// XSign with a wrong password
-		t.refDecrypt(kj.ct, kj.iv, kj.salt, kj.mac, wrong, n, p)
+		dkWrong := t.refDecrypt(kj.ct, kj.iv, kj.salt, kj.mac, wrong, n, p)
 		sig, err := hsm.XSign(xpub, path, msg, wrong)
-		if err == nil {
+		if err == nil && bytes.Equal(dkWrong, dk) {
+			c.Stats.Count("keystore:wrong-password-with-equal-scrypt-key")
+			obs = append(obs, ocOk(sig))
+		} else if err == nil {
 			c.Stats.Fail("class=keystore-wrong-password: XSign succeeds with a wrong password ("+wkind+")", d)
 			obs = append(obs, ocOk(sig))
 		} else {
@@ -1046,7 +1062,7 @@ func hsmCase(c *Ctx, idx int) error {
 		c.Stats.Fail("class=keystore-roundtrip: ResetPassword with the correct old password fails: "+err.Error(), desc)
 		return nil
 	}
-	if _, err := hsm.LoadChainKDKey(xpub, pw); err == nil {
+	if _, err := hsm.LoadChainKDKey(xpub, pw); err == nil && !sameScryptKey(pw, pw2) {
 		c.Stats.Fail("class=keystore-wrong-password: the old password still opens the key after ResetPassword", desc)
 	}
 	c.Stats.Count("hsm:reset-password")
